@@ -3,7 +3,7 @@
    key = first 32 hex digits of H(registry_text ps ++ "$$$" ++ inputs_text ns inputs)   (C12);
    the theorems below list what that text does not depend on. *)
 From Coq Require Import String Ascii List Bool Arith ZArith Permutation.
-From TC Require Import PyStr Value Dict Placeholder Repr Param Key ReprProofs.
+From TC Require Import PyStr Value Dict Placeholder Repr Param Key Names Config Chain ReprProofs ChainProofs.
 Import ListNotations.
 
 (* the order in which parameters are declared *)
@@ -127,3 +127,14 @@ Theorem C02_quoted_placeholder_text_refuted :
   value_repr k2e_param (apply_str (of_map []) (lit "it's {Y}")) <> value_repr k2e_param (VStr (lit "it's {Y}")).
 Proof. exact quoted_placeholder_text_matters. Qed.
 Print Assumptions C02_quoted_placeholder_text_refuted.
+
+(* K4 (open known finding): the name an input declaration is looked up under depends on the mounting namespace in one
+   more way than by the prefix the key text strips again: the name `n::n`, declared by a task, is looked up as `n::n`
+   at the top level and as `w::n::n` under the namespace `w` - the same task relative to the declaring one - but under
+   the namespace `n` it is looked up as `n::n`, the sibling, not as `n::n::n`.  Replayed on the implementation on every
+   run (rewritings, moves mount:n:reference-names-mount-namespace). *)
+Theorem C02_reference_names_mount_namespace_refuted :
+  prefixed (Some (lit "n")) (lit "n::n") = lit "n::n" /\ prefixed None (lit "n::n") = lit "n::n" /\
+  prefixed (Some (lit "w")) (lit "n::n") = lit "w::n::n".
+Proof. exact declared_name_taken_for_full. Qed.
+Print Assumptions C02_reference_names_mount_namespace_refuted.
